@@ -2,8 +2,13 @@
 C33 — the guard logic in front of the panic sites of event where-clause evaluation
 (`lib/src/server/events/operator.rs`: `evaluate`, `value_of`, the `&operands[k]` accesses of every
 operator function, `compare_values!`; `event_filter.rs`: `evaluate_where_clause`).  Only *whether a
-panic site is reached* is modelled (the operator semantics are C39's subject).  These sites are
-recorded findings of C33 (the repair of operator.rs belongs to C39), so the model keeps them.
+panic site is reached* is modelled (the operator semantics are C39's subject).
+
+`fixed = false` is the pinned source (four panic sites); `fixed = true` is the source after the
+C39 repairs: `evaluate` checks the operand count before dispatching, `value_of` answers
+BadFilterOperandInvalid for an element index out of range and for an AttributeOperand, and a failed
+implicit conversion makes the comparison an error (FALSE) instead of reaching `compare_values!`'s
+`panic!()`.  The driver and the totality theorem use `true`, the counterexamples `false`.
 -/
 namespace OpcuaVerif.C33
 
@@ -46,45 +51,53 @@ deriving Repr, DecidableEq
 `compare_values!`'s `panic!()`; Empty first gives `ComparisonResult::Error`.  `proceeds` = the result
 is Equals (all Int32 literals of the harness carry the same value), which is what lets `between`
 look at its third operand and `in_list` stop. -/
-def cmp (a b : Ev) : Ev :=
+def cmp (fixed : Bool) (a b : Ev) : Ev :=
   match a, b with
   | .panic s, _ => .panic s
   | .err, _ => .err
   | _, .panic s => .panic s
   | _, .err => .err
-  | .val .int, .val .empty => .panic .compareValues
+  | .val .int, .val .empty => if fixed then .bool else .panic .compareValues
   | _, _ => .bool
 
 def isEqualInts (a b : Ev) : Bool := a == .val .int && b == .val .int
 
 /-- the tail of `in_list`: compare operand 0 with each remaining operand until one is equal -/
-def inListTail (v0 : Ev) : List Ev → Ev
+def inListTail (fixed : Bool) (v0 : Ev) : List Ev → Ev
   | [] => .bool
   | w :: rest =>
-    match cmp v0 w with
+    match cmp fixed v0 w with
     | .panic s => .panic s
-    | _ => if isEqualInts v0 w then .bool else inListTail v0 rest
+    | _ => if isEqualInts v0 w then .bool else inListTail fixed v0 rest
 
 /-- `operator::value_of` for one operand; `sub used idx` evaluates element `idx` (an ElementOperand) -/
-def evalOperand (sub : List Nat → Nat → Ev) (used : List Nat) : Operand → Ev
+def evalOperand (fixed : Bool) (sub : List Nat → Nat → Ev) (used : List Nat) : Operand → Ev
   | .lit l => .val l
-  | .attr => .panic .attributeOperand
+  | .attr => if fixed then .err else .panic .attributeOperand
   | .elem idx => if used.contains idx then .err else sub (idx :: used) idx
 
+/-- the operand count `evaluate` insists on before it dispatches (repaired source) -/
+def minOperands : FOp → Nat
+  | .isNull => 1
+  | .not => 1
+  | .between => 3
+  | _ => 2
+
 /-- `operator::evaluate` for element `i` (fuel = remaining nesting depth; `used` = `used_elements`) -/
-def evalElem (els : List Elem) : Nat → List Nat → Nat → Ev
+def evalElem (fixed : Bool) (els : List Elem) : Nat → List Nat → Nat → Ev
   | 0, _, _ => .err
   | fuel + 1, used, i =>
     match els[i]? with
-    | none => .panic .elementIndex
+    | none => if fixed then .err else .panic .elementIndex
     | some e =>
       if e.operands.isEmpty then .err
+      else if fixed && decide (e.operands.length < minOperands e.op) then .err
       else
         let v (k : Nat) : Ev := match e.operands[k]? with
           | none => .panic .operandIndex
-          | some o => evalOperand (evalElem els fuel) used o
+          | some o => evalOperand fixed (evalElem fixed els fuel) used o
         -- `f(&operands[0], &operands[1], ..)`: the arguments are indexed before anything is evaluated
-        let binary : Ev := if e.operands.length < 2 then .panic .operandIndex else cmp (v 0) (v 1)
+        let binary : Ev := if e.operands.length < 2 then .panic .operandIndex else cmp fixed (v 0) (v 1)
         -- `value_as(&operands[0])?` then `value_as(&operands[1])?`
         let seq2 : Ev := match v 0 with
           | .panic s => .panic s
@@ -115,19 +128,19 @@ def evalElem (els : List Elem) : Nat → List Nat → Nat → Ev
             | _ =>
               if isEqualInts (v 0) (v 1) then
                 (if e.operands.length < 3 then .panic .operandIndex
-                 else match cmp (v 0) (v 2) with
+                 else match cmp fixed (v 0) (v 2) with
                   | .panic s => .panic s
                   | .err => .err
                   | _ => .bool)
               else .bool)
-        | .inList => inListTail (v 0) ((e.operands.drop 1).map (fun o => evalOperand (evalElem els fuel) used o))
+        | .inList => inListTail fixed (v 0) ((e.operands.drop 1).map (fun o => evalOperand fixed (evalElem fixed els fuel) used o))
         | .and => seq2
         | .or => seq2
 
 /-- `evaluate_where_clause`: does evaluating the clause on an event reach a panic site? -/
-def whereClausePanics (els : List Elem) : Option PanicSite :=
+def whereClausePanics (fixed : Bool) (els : List Elem) : Option PanicSite :=
   if els.isEmpty then none
-  else match evalElem els (els.length + 1) [0] 0 with
+  else match evalElem fixed els (els.length + 1) [0] 0 with
     | .panic s => some s
     | _ => none
 
@@ -148,5 +161,15 @@ def matchLoop (subs : Nat → List Nat) (target : Nat) : Nat → List Nat → Op
     if target = current then some true
     else if (subs current).contains target then some true
     else matchLoop subs target fuel ((subs current).reverse ++ rest)
+
+/-- the repaired loop: a type that was examined before is skipped (`visited`) -/
+def matchLoopVisited (subs : Nat → List Nat) (target : Nat) : Nat → List Nat → List Nat → Option Bool
+  | 0, _, _ => none
+  | _ + 1, _, [] => some false
+  | fuel + 1, visited, current :: rest =>
+    if visited.contains current then matchLoopVisited subs target fuel visited rest
+    else if target = current then some true
+    else if (subs current).contains target then some true
+    else matchLoopVisited subs target fuel (current :: visited) ((subs current).reverse ++ rest)
 
 end OpcuaVerif.C33
